@@ -15,8 +15,15 @@ structure St where
   dict : List (Bytes × Nat) := []
   /-- results of the last `winCap` calls on the long-lived packet decoder (`pdecs`), newest first -/
   win : List (Except PErr (List Packet)) := []
+  /-- memory model: the heap (caller read buffers, decoder-private buffers) and the SLICES the last `winCap`
+  `pdecs` calls returned, newest first; `pchk` reads them on the heap as it is then -/
+  heap : Heap := []
+  winR : List (Except PErr (List PRef)) := []
   /-- Data-packet body staged by `sess` (with the inflate table of the op), consumed by `sgo` -/
   pend : Option (Bytes × List (Nat × Bytes)) := none
+  /-- session script staged by `sscr` (frames as the connection hands them over, the JSON bodies accepted,
+  compression flag, zlib table), consumed by `sgo` -/
+  pendScr : Option (List Bytes × List Bytes × Bool × List (Bytes × Bytes)) := none
 
 def mkEnv (s : St) (compress : Bool) (defl : Bytes) (infl : List (Nat × Bytes)) : Env :=
   { routes := Dict.routes s.dict
@@ -61,6 +68,14 @@ def showDec : Except PErr (List Packet) → String
   | .ok ps => showPackets ps
   | .error _ => "err"
 
+/-- kept packets rendered on the heap as it is NOW -/
+def showDecR (h : Heap) : Except PErr (List PRef) → String
+  | .ok rs => showPackets (rs.filterMap h.deref)
+  | .error _ => "err"
+
+/-- the harness's `recycle`: the caller overwrites the read buffer it handed to `Decode` -/
+def recycled (bs : Bytes) : Bytes := bs.map fun x => x ^^^ 0xa5
+
 def showSess : SessOut → String
   | .delivered id r d => s!"delivered id={id} route={hexOfBytes r} data={hexOfBytes d}"
   | .closed => "closed"
@@ -92,6 +107,73 @@ def parseFrags (ws : List String) : Option (List Bytes) :=
   | none => none
   | some v => (v.splitOn ",").mapM bytesOfHex
 
+/-- `m=<typ>:<id>:<route>:<data>:<err>:<defl>` tokens of an `mchain` op: message fields and the deflated payload -/
+def parseChain (ws : List String) : List (Nat × Nat × Bytes × Bytes × Bool × Bytes) :=
+  ws.filterMap fun w =>
+    if w.startsWith "m=" then
+      match ((w.drop 2).toString).splitOn ":" with
+      | [t, i, r, d, e, z] =>
+        match t.toNat?, i.toNat?, bytesOfHex r, bytesOfHex d, bytesOfHex z with
+        | some t, some i, some r, some d, some z => some (t, i, r, d, e == "1", z)
+        | _, _, _, _, _ => none
+      | _ => none
+    else none
+
+/-- environment whose zlib is the table `tbl` of (plain, deflated) pairs recorded from the real zlib -/
+def tblEnv (s : St) (compress : Bool) (tbl : List (Bytes × Bytes)) : Env :=
+  { routes := Dict.routes s.dict
+    codes := Dict.codes s.dict
+    deflate := fun d => ((tbl.find? (fun e => e.1 == d)).map (·.2)).getD d
+    inflate := fun b => (tbl.find? (fun e => e.2 == b)).map (·.1)
+    compress := compress }
+
+def showChainMsg (m : Msg) : String :=
+  s!" m={m.typ.code}:{m.id}:{hexOfBytes m.route}:{hexOfBytes m.data}:{b2n m.err}"
+
+/-- one frame of an `mchain` stream, as the harness renders it -/
+def showRecv (E : Env) (fr : Bytes) : String :=
+  match decodePackets fr with
+  | .error _ => " bad"
+  | .ok ps => String.join (ps.map fun p =>
+      if p.typ != 4 then s!" p{p.typ}" else
+      match decodeMsg E p.body with
+      | .ok m => showChainMsg m
+      | .err _ => " m=err"
+      | .oob => " panic")
+
+def parseCuts (ws : List String) : List Nat :=
+  ((kv ws "cut").getD "").splitOn "," |>.filterMap (·.toNat?)
+
+/-- the frames of an `sscr` op, in order; `none` when a message cannot be encoded/framed -/
+def scriptFrames (E : Env) (ws : List String) : Option (List Bytes) :=
+  (ws.drop 1).foldl (fun acc w =>
+    match acc with
+    | none => none
+    | some fr =>
+      let fb (p : Packet) : Option (List Bytes) :=
+        match frame p with | .ok b => some (fr ++ [b]) | .error _ => none
+      if w.startsWith "hs=" then
+        match bytesOfHex (w.drop 3).toString with | some b => fb ⟨1, b⟩ | none => none
+      else if w == "ack" then fb ⟨2, []⟩
+      else if w == "hb" then fb ⟨3, []⟩
+      else if w.startsWith "f=" then
+        match bytesOfHex (w.drop 2).toString with | some b => some (fr ++ [b]) | none => none
+      else if w.startsWith "m=" then
+        match parseChain [w] with
+        | [c] => match MType.ofCode c.1 with
+          | some ty => fb ⟨4, encodeMsg E ⟨ty, c.2.1, c.2.2.1, c.2.2.2.1, c.2.2.2.2.1⟩⟩
+          | none => none
+        | _ => none
+      else some fr) (some [])
+
+def parseHsOk (ws : List String) : List Bytes :=
+  (((kv ws "hsok").getD "").splitOn ",").filterMap fun h => if h == "" then none else bytesOfHex h
+
+def showScript (evs : List SessOut) : String :=
+  let strs := evs.map showSess
+  let closed := match evs.getLast? with | some .closed => true | some .crash => true | _ => false
+  " ; ".intercalate (if closed then strs else strs ++ ["open"])
+
 def parseMsgFields (ws : List String) : Option (Nat × Nat × Bytes × Bytes × Bool) := do
   let t ← kvNat ws "typ"
   let id ← kvNat ws "id"
@@ -102,7 +184,7 @@ def parseMsgFields (ws : List String) : Option (Nat × Nat × Bytes × Bytes × 
 
 def step (s : St) (line : String) : St × String :=
   -- replay of a run in which the process died: the harness runs the staged session there (= `sgo`)
-  let line := if line.startsWith "<harness-exit" && s.pend.isSome then "sgo" else line
+  let line := if line.startsWith "<harness-exit" && (s.pend.isSome || s.pendScr.isSome) then "sgo" else line
   let ws := words line
   match ws.head? with
   | some "dict" =>
@@ -127,27 +209,48 @@ def step (s : St) (line : String) : St × String :=
     -- Decode a, then b on the SAME decoder, then read a's result again: results are values
     match kvHex ws "a", kvHex ws "b" with
     | some a, some b =>
-      let ra := showDec (decodePackets a)
-      (s, ra ++ " | " ++ showDec (decodePackets b) ++ " | " ++ ra)
+      -- on the memory model: read buffers 0 and 1 are the caller's, each is recycled after its Decode call
+      let h0 : Heap := [⟨.caller, a⟩, ⟨.caller, b⟩]
+      let (h1, ra) := decodeH h0 0
+      let r1 := showDecR h1 ra
+      let h2 := h1.step (.write 0 (recycled a))
+      let (h3, rb) := decodeH h2 1
+      let r2 := showDecR h3 rb
+      let h4 := h3.step (.write 1 (recycled b))
+      (s, r1 ++ " | " ++ r2 ++ " | " ++ showDecR h4 ra)
     | _, _ => (s, "bad-op")
   | some "pdecs" =>
     match kvHex ws "data" with
     | some bs =>
-      let (w', r) := decodeShared s.win bs
-      ({ s with win := w' }, showDec r)
+      -- the caller's read buffer is allocated, decoded, rendered, then recycled (overwritten)
+      let id := s.heap.length
+      let (h2, r) := decodeH (s.heap.step (.alloc bs)) id
+      let out := showDecR h2 r
+      ({ s with heap := h2.step (.write id (recycled bs)), winR := winPush s.winR r }, out)
     | none => (s, "bad-op")
   | some "pchk" =>
     match kvNat ws "k" with
-    | some k => (s, match s.win[k]? with | some r => showDec r | none => "none")
+    | some k => (s, match s.winR[k]? with | some r => showDecR s.heap r | none => "none")
     | none => (s, "bad-op")
   | some "sess" =>
     match kvHex ws "data" with
-    | some bs => ({ s with pend := some (bs, parseInfl ws) }, "working")
+    | some bs => ({ s with pend := some (bs, parseInfl ws), pendScr := none }, "working")
+    | none => (s, "bad-op")
+  | some "sscr" =>
+    -- a whole session as the frames the connection hands over (`sessFrames`), staged; run by `sgo`
+    match kvNat ws "comp" with
+    | some comp =>
+      let tbl := (parseChain ws).map fun c => (c.2.2.2.1, c.2.2.2.2.2)
+      match scriptFrames (tblEnv s (comp == 1) tbl) ws with
+      | some frames => ({ s with pendScr := some (frames, parseHsOk ws, comp == 1, tbl), pend := none }, "working")
+      | none => (s, "encerr")
     | none => (s, "bad-op")
   | some "sgo" =>
-    match s.pend with
-    | some (bs, infl) => ({ s with pend := none }, showSess (sessionData (mkEnv s false [] infl) bs))
-    | none => (s, "none")
+    match s.pendScr, s.pend with
+    | some (frames, hsok, comp, tbl), _ =>
+      ({ s with pendScr := none }, showScript (sessFrames (tblEnv s comp tbl) (fun b => hsok.contains b) .start frames))
+    | none, some (bs, infl) => ({ s with pend := none }, showSess (sessionData (mkEnv s false [] infl) bs))
+    | none, none => (s, "none")
   | some "srt" =>
     -- packets framed by the encoder, the byte stream cut into fragments (`cut=`), read back through
     -- GetNextMessage + packet decoder.  The cuts do not matter (`stream_fragmentation_independent`),
@@ -166,6 +269,59 @@ def step (s : St) (line : String) : St × String :=
       let r := readStreamF (fs.flatten.length + 1) fs
       (s, "ok" ++ String.join (r.1.map fun m => " m=" ++ hexOfBytes m) ++ " end=" ++ showEnd r.2)
     | none => (s, "bad-op")
+  | some "mchain" =>
+    -- the whole path: Encode + frame every message, the stream through GetNextMessage (the cuts do not matter:
+    -- `stream_fragmentation_independent`), packet decoder, message.Decode of every body (`chain_roundtrip`)
+    match kvNat ws "comp" with
+    | some comp =>
+      let cs := parseChain ws
+      let E := tblEnv s (comp == 1) (cs.map fun c => (c.2.2.2.1, c.2.2.2.2.2))
+      match cs.mapM (fun c => (MType.ofCode c.1).map fun ty => (⟨ty, c.2.1, c.2.2.1, c.2.2.2.1, c.2.2.2.2.1⟩ : Msg)) with
+      | none => (s, "encerr")
+      | some ms =>
+        let enc := (sendMsgs E ms).map frame
+        if enc.all (fun e => match e with | .ok _ => true | .error _ => false) then
+          let bs := enc.flatMap (fun e => match e with | .ok b => b | .error _ => [])
+          let r := readStream (bs.length + 1) bs
+          (s, "ok" ++ String.join (r.1.map (showRecv E)) ++ " end=" ++ showEnd r.2)
+        else (s, "encerr")
+    | none => (s, "bad-op")
+  | some "rtd" =>
+    -- Encode under the dictionary as it is, then one SetDictionary entry, then Decode under the grown dictionary
+    match parseMsgFields ws, kvNat ws "comp", kvHex ws "defl", kvHex ws "key", kvNat ws "code" with
+    | some (t, id, route, data, e), some comp, some defl, some key, some code =>
+      match MType.ofCode t with
+      | none => (s, "err")
+      | some ty =>
+        let bs := encodeMsg (mkEnv s (comp == 1) defl [(defl.length, data)]) ⟨ty, id, route, data, e⟩
+        let (s', d) := match setDictionary trimWs s.dict [(key, code)] with
+          | (d', true) => ({ s with dict := d' }, "ok")
+          | (_, false) => (s, "dup")
+        (s', "ok " ++ hexOfBytes bs ++ " | " ++ d ++ " | " ++ showOut (decodeMsg (mkEnv s' (comp == 1) defl [(defl.length, data)]) bs))
+    | _, _, _, _, _ => (s, "bad-op")
+  | some "enc2" =>
+    -- Encode handed the same message object twice (`encodeMsgM`: the first call may replace its Data)
+    match parseMsgFields ws, kvNat ws "comp", kvHex ws "defl", kvHex ws "defl2" with
+    | some (t, id, route, data, e), some comp, some defl, some defl2 =>
+      match MType.ofCode t with
+      | none => (s, "err")
+      | some ty =>
+        let E := tblEnv s (comp == 1) [(data, defl), (defl, defl2)]
+        let r1 := encodeMsgM E ⟨ty, id, route, data, e⟩
+        let r2 := encodeMsgM E r1.2
+        (s, "ok " ++ hexOfBytes r1.1 ++ " | ok " ++ hexOfBytes r2.1 ++ " | " ++ showOut (decodeMsg E r2.1))
+    | _, _, _, _ => (s, "bad-op")
+  | some "crl" =>
+    -- encoder frames cut at the given positions, read by the client's accumulating read loop
+    let ps := parsePackets ws
+    let enc := ps.map frame
+    if enc.all (fun e => match e with | .ok _ => true | .error _ => false) then
+      let bs := enc.flatMap (fun e => match e with | .ok b => b | .error _ => [])
+      let frags := (cutAt bs 0 (parseCuts ws)).filter (fun f => !f.isEmpty)
+      if frags.any (fun f => f.length ≥ 1024) then (s, "bad-op") else
+      let r := showPackets (clientReadLoop [] frags)
+      (s, r ++ " | " ++ r)
+    else (s, "encerr")
   | some "zrt" =>
     -- DeflateData then InflateData (mode=raw) / Encode with compression then Decode (mode=msg) of an
     -- n-byte payload: zlib is the abstract inverse pair of the model, for every size
@@ -235,15 +391,16 @@ def specStep (st : SpecSt) (line : String) : SpecSt × String :=
       (st, "VIOLATION C06/server-crash process died (last staged session: " ++ (st.pend.getD "none") ++ ") " ++ op)
     else if isPanic obs then
       match ws.head? with
-      | some "sess" | some "sgo" =>
+      | some "sess" | some "sgo" | some "sscr" =>
         ({ st with pend := none }, "VIOLATION C06/server-crash " ++ (st.pend.getD op) ++ " got " ++ obs)
-      | some "dec" | some "rt" => (st, "VIOLATION C06/message-decode-crash " ++ op)
-      | some "pdec" | some "prt" | some "pdec2" | some "pdecs" | some "pchk" => (st, "VIOLATION C06/packet-decode-crash " ++ op)
+      | some "dec" | some "rt" | some "rtd" => (st, "VIOLATION C06/message-decode-crash " ++ op)
+      | some "pdec" | some "prt" | some "pdec2" | some "pdecs" | some "pchk" | some "crl" => (st, "VIOLATION C06/packet-decode-crash " ++ op)
+      | some "mchain" => (st, "VIOLATION C06/chain-crash " ++ op)
       | some "srt" | some "gnm" => (st, "VIOLATION C06/stream-read-crash " ++ op)
       | some "zrt" => (st, "VIOLATION C06/zlib-crash " ++ op)
       | _ => (st, "VIOLATION C06/encode-crash " ++ op)
     else match ws.head? with
-    | some "rt" =>
+    | some "rt" | some "rtd" =>
       match parseMsgFields ws with
       | some (t, id, route, data, e) =>
         match MType.ofCode t with
@@ -290,12 +447,56 @@ def specStep (st : SpecSt) (line : String) : SpecSt × String :=
       let clean := contains obs "end=closed"
       (st, if (clean && got == sent) || (!clean && got.isPrefixOf sent) then "ok"
            else "VIOLATION C06/stream-reassembly " ++ (op.take 300).toString ++ " got " ++ (obs.take 300).toString)
+    | some "mchain" =>
+      -- every message within protocol limits comes out of the whole path with the fields the protocol carries,
+      -- all of them read AFTER the whole stream was decoded, and the stream ends cleanly
+      let cs := parseChain ws
+      match cs.mapM (fun c => (MType.ofCode c.1).map fun ty => (⟨ty, c.2.1, c.2.2.1, c.2.2.2.1, c.2.2.2.2.1⟩ : Msg)) with
+      | none => (st, "ok")
+      | some ms =>
+        if ms.all (fun m => decide (m.id < 2 ^ 64 ∧ m.route.length ≤ 255 ∧ m.data.length < 2 ^ 23)) then
+          let want := "ok" ++ String.join (ms.map fun m => showChainMsg (carried m)) ++ " end=closed"
+          (st, if obs == want then "ok"
+               else "VIOLATION C06/chain-roundtrip " ++ (op.take 600).toString ++ " got " ++ (obs.take 600).toString)
+        else (st, "ok")
+    | some "crl" =>
+      -- "<packets as readPackets returned them> | <the same queued packets read at the end>"
+      match obs.splitOn " | " with
+      | [r1, r2] =>
+        let ps := parsePackets ws
+        if r1 != r2 then
+          (st, "VIOLATION C06/decode-result-aliased " ++ (op.take 600).toString ++ " got " ++ (obs.take 600).toString)
+        else if ps.all (fun p => 1 ≤ p.typ ∧ p.typ ≤ 5 ∧ p.body.length < 2 ^ 24) && r1 != showPackets ps then
+          (st, "VIOLATION C06/packet-roundtrip " ++ (op.take 600).toString ++ " got " ++ (obs.take 600).toString)
+        else (st, "ok")
+      | _ => (st, if obs == "bad-op" || obs == "encerr" then "ok" else "VIOLATION C06/decode-result-aliased " ++ op ++ " malformed observation " ++ obs)
     | some "zrt" =>
       match kvNat ws "n" with
       | some n => (st, if obs == s!"ok out={n} eq=1" then "ok" else "VIOLATION C06/zlib-roundtrip " ++ op ++ " got " ++ obs)
       | none => (st, "bad-op")
-    | some "sess" => ({ st with pend := some op }, "ok")
-    | some "sgo" => ({ st with pend := none }, "ok")
+    | some "sess" | some "sscr" => ({ st with pend := some op }, "ok")
+    | some "sgo" =>
+      -- a REGULAR session (accepted handshake, ack, then messages within protocol limits only): every message is
+      -- handed to the owner, in order, with the fields the protocol carries, and the session stays open
+      match st.pend with
+      | some sop =>
+        let sw := words sop
+        let toks := sw.drop 1 |>.filter fun w => !(w.startsWith "comp=" || w.startsWith "hsok=")
+        let regular := sw.head? == some "sscr" && (match toks with
+          | h :: "ack" :: rest => h.startsWith "hs=" && (parseHsOk sw).any (fun b => "hs=" ++ hexOfBytes b == h) &&
+              rest.all (fun w => w.startsWith "m=") && (parseChain rest).length == rest.length
+          | _ => false)
+        if regular then
+          match (parseChain sw).mapM (fun c => (MType.ofCode c.1).map fun ty => (⟨ty, c.2.1, c.2.2.1, c.2.2.2.1, c.2.2.2.2.1⟩ : Msg)) with
+          | some ms =>
+            if ms.all (fun m => decide (m.id < 2 ^ 64 ∧ m.route.length ≤ 255 ∧ m.data.length < 2 ^ 23)) then
+              let want := " ; ".intercalate ((ms.map fun m => showSess (.delivered ((carried m).id % 2 ^ 32) (carried m).route m.data)) ++ ["open"])
+              ({ st with pend := none }, if obs == want then "ok"
+                else "VIOLATION C06/session-delivery " ++ (sop.take 600).toString ++ " got " ++ (obs.take 600).toString)
+            else ({ st with pend := none }, "ok")
+          | none => ({ st with pend := none }, "ok")
+        else ({ st with pend := none }, "ok")
+      | none => (st, "ok")
     | _ => (st, "ok")
   | _ => (st, "bad-line")
 
